@@ -669,7 +669,7 @@ class HeteroscedasticNoise(CovarianceFunction):
         self.bounds = [(s - 8, s + 2) for _ in range(self.n_params)]
 
     def __call__(self, u: ndarray, v: ndarray, theta: ndarray) -> ndarray:
-        return zeros([u.size, v.size])
+        return zeros([u.shape[0], v.shape[0]])
 
     def build_covariance(self, theta: ndarray) -> ndarray:
         """
